@@ -6,7 +6,7 @@ from ..paths import loop_system, PathView
 from ..describe import describe
 from ..idioms import FirstIter, blank_fact
 from .common import configs_for
-from .util import Rule, guarded, site_of_block
+from .util import Rule, guarded, site_of_block, check_visits_all
 from . import models
 
 TITLE = "indent prefixes every line and preserves line structure"
@@ -55,6 +55,7 @@ def _check(prog, rep):
         raise AnchorMissing("indent: no loop over s.split_terminator('\\n') (found %s)" % [D(l.source) for l in lms if l.source])
     line = fi.element
     NL = ("char", 10)
+    check_visits_all(r, body, main, "indent's loop over the lines")
     trans = loop_system(prog, body, main, [], [res])
     cases = set()
     for tr in trans:
